@@ -184,6 +184,8 @@ type Snap struct {
 	Unacked map[int]bool // message indexes unacknowledged on Sub when taken
 	// Known: messages that existed on the topic when the snapshot was taken
 	NMsgs int
+	// MaybeGone: its (deleted) topic may have been reclaimed by a maintenance job, and the snapshot with it
+	MaybeGone bool
 }
 
 type Model struct {
@@ -413,6 +415,8 @@ type Obs struct {
 	LiveBySubMsg map[string]int
 	// LiveTopics / LiveSubs: names of rows with deleted_at IS NULL
 	LiveTopics, LiveSubs map[string]int
+	// SnapRows: names of snapshot rows
+	SnapRows map[string]int
 	// Names: Get/List results (full resource paths, in response order)
 	Names []string
 	// Got: configuration echoed by GetSubscription
@@ -1322,6 +1326,26 @@ func (m *Model) applyJob(c Call, o Obs) []Hit {
 				}
 			}
 		}
+	case "prune-deleted-topics":
+		// a soft-deleted topic can only be reclaimed (and its late snapshots with
+		// it) when no subscription row refers to it any more; a LIVE subscription
+		// certainly still does
+		for _, sn := range m.Snaps {
+			t := m.Topics[sn.Topic]
+			if t != nil && t.Live && t.Gen == sn.TGen {
+				continue
+			}
+			pinned := false
+			for _, s := range m.Subs {
+				// (a dead-letter reference does not keep a deleted topic: that foreign key is SET NULL)
+				if s.Live && s.Cfg.Topic == sn.Topic && s.TGen == sn.TGen {
+					pinned = true
+				}
+			}
+			if !pinned {
+				sn.MaybeGone = true
+			}
+		}
 	case "delete-expired-subscriptions":
 		var hits []Hit
 		n := 0
@@ -1365,6 +1389,24 @@ func (m *Model) checkRows(o Obs, call Iv) []Hit {
 			c := o.LiveSubs[SubPath(n)]
 			if s.Live && c != 1 || !s.Live && c != 0 {
 				hits = append(hits, hit("live-sub-rows", []string{"C12", "C15", "C14"}, "subscription %s: model live=%v but %d live rows", n, s.Live, c))
+			}
+		}
+	}
+	if o.SnapRows != nil {
+		for n, sn := range m.Snaps {
+			if c := o.SnapRows[SnapPath(n)]; c != 1 && !(sn.MaybeGone && c == 0) {
+				hits = append(hits, hit("snapshot-rows", []string{"C12", "C15", "C13"}, "snapshot %s exists for clients but %d rows", n, c))
+			}
+		}
+		for path, c := range o.SnapRows {
+			found := false
+			for n := range m.Snaps {
+				if SnapPath(n) == path {
+					found = true
+				}
+			}
+			if !found && c > 0 {
+				hits = append(hits, hit("snapshot-rows", []string{"C12", "C15"}, "snapshot row %s exists but the snapshot was deleted (with its topic or explicitly)", path))
 			}
 		}
 	}
